@@ -4,8 +4,11 @@ STimedelta / SDatetime hold a microsecond count (SNum Int, or SNum Real when der
 from virtual loop time).  `VTimedelta` / `VDatetime` are the class objects patched into
 repid modules under the names `timedelta` / `datetime`: constructing them with concrete
 arguments yields the real stdlib objects, with symbolic arguments the proxies; their
-`isinstance` accepts both.  Naive datetimes only; the process runs with TZ=UTC so that
-`datetime.timestamp()` is the same affine map as the proxies use.
+`isinstance` accepts both.  The process runs with TZ=UTC so that `datetime.timestamp()` is the same
+affine map as the proxies use; a harness may make the zone a (symbolic) input with `local_zone(offset_us)`:
+clock values are then local wall-clock microseconds, `time.time()`/`.timestamp()` are `local - offset`, and in
+concrete mode (replay) the process zone is switched with tzset() for the duration.  Aware symbolic datetimes
+carry a fixed UTC offset.
 """
 from __future__ import annotations
 
@@ -30,6 +33,45 @@ EPOCH = real_datetime(2024, 1, 1)
 EPOCH_US = (EPOCH - UNIX0) // US
 
 
+# local wall clock = UTC + ZONE_US (int | SNum); 0 unless a harness opted in with local_zone()
+ZONE_US = 0
+
+
+def zone():
+    return ZONE_US
+
+
+class local_zone:
+    """with local_zone(off_us): ...  - symbolic offset: only the proxies see it; concrete offset: the process zone too."""
+
+    def __init__(self, off_us):
+        self.off = off_us
+
+    def __enter__(self):
+        global ZONE_US
+        import os, time
+        self.prev, self.prev_env = ZONE_US, os.environ.get("TZ")
+        ZONE_US = self.off
+        if not isinstance(self.off, SNum):
+            secs = int(self.off) // 1000000
+            sign = "-" if secs >= 0 else "+"            # POSIX: the sign is west of Greenwich
+            a = abs(secs)
+            os.environ["TZ"] = "LCL%s%02d:%02d:%02d" % (sign, a // 3600, a % 3600 // 60, a % 60)
+            time.tzset()
+        return self
+
+    def __exit__(self, *exc):
+        global ZONE_US
+        import os, time
+        ZONE_US = self.prev
+        if self.prev_env is None:
+            os.environ.pop("TZ", None)
+        else:
+            os.environ["TZ"] = self.prev_env
+        time.tzset()
+        return False
+
+
 def td_us(x):
     """timedelta-like -> microseconds (int | SNum) or NotImplemented."""
     if isinstance(x, STimedelta):
@@ -39,14 +81,45 @@ def td_us(x):
     return NotImplemented
 
 
-def dt_us(x):
+def dt_parts(x):
+    """datetime-like -> (wall-clock µs, utc offset µs or None for naive) or NotImplemented."""
     if isinstance(x, SDatetime):
-        return x.us
+        return x.us, x.off
     if isinstance(x, real_datetime):
         if x.tzinfo is not None:
-            raise Abort("unsupported", "tz-aware datetime")
-        return (x - UNIX0) // US
+            off = x.utcoffset()
+            if off is None:
+                return (x.replace(tzinfo=None) - UNIX0) // US, None
+            return (x.replace(tzinfo=None) - UNIX0) // US, off // US
+        return (x - UNIX0) // US, None
     return NotImplemented
+
+
+def dt_us(x):
+    """naive datetime-like -> µs; aware ones are not accepted here."""
+    p = dt_parts(x)
+    if p is NotImplemented:
+        return p
+    if p[1] is not None:
+        raise Abort("unsupported", "tz-aware datetime where a naive one is expected")
+    return p[0]
+
+
+def _pair(a, b, what):
+    """Both naive -> wall µs; both aware -> UTC µs; mixed -> TypeError like CPython."""
+    (ua, oa), (ub, ob) = a, b
+    if (oa is None) != (ob is None):
+        raise TypeError(f"can't {what} offset-naive and offset-aware datetimes")
+    if oa is None:
+        return ua, ub
+    return ua - oa, ub - ob
+
+
+def make_aware(wall_us, off_us):
+    if _is_sym(wall_us) or _is_sym(off_us):
+        return SDatetime(wall_us, off_us)
+    d = make_datetime(wall_us)
+    return d.replace(tzinfo=_dt.timezone(real_timedelta(microseconds=int(off_us))))
 
 
 def _is_sym(v):
@@ -189,8 +262,8 @@ class STimedelta:
 
 
 class SDatetime:
-    __slots__ = ("us",)
-    tzinfo = None
+    """us: wall-clock µs since 1970; off: None (naive, local wall clock) or the fixed UTC offset in µs (aware)."""
+    __slots__ = ("us", "off")
 
     def __getattr__(self, name):
         # an operation the proxy does not model is "unsupported" (inconclusive), never an AttributeError inside the code under test
@@ -198,30 +271,52 @@ class SDatetime:
             raise AttributeError(name)
         raise Abort("unsupported", f"{type(self).__name__}.{name}")
 
-    def __init__(self, us):
+    def __init__(self, us, off=None):
         self.us = us
+        self.off = off
+
+    @property
+    def tzinfo(s):
+        if s.off is None:
+            return None
+        if _is_sym(s.off):
+            raise Abort("unsupported", "tzinfo object of a symbolic offset")
+        return _dt.timezone(real_timedelta(microseconds=int(s.off)))
+
+    def utcoffset(s):
+        return None if s.off is None else make_timedelta(s.off)
+
+    def _mk(s, us):
+        return make_datetime(us) if s.off is None else make_aware(us, s.off)
 
     def __add__(s, o):
         o = td_us(o)
-        return NotImplemented if o is NotImplemented else make_datetime(s.us + o)
+        return NotImplemented if o is NotImplemented else s._mk(s.us + o)
     __radd__ = __add__
 
     def __sub__(s, o):
         t = td_us(o)
         if t is not NotImplemented:
-            return make_datetime(s.us - t)
-        d = dt_us(o)
+            return s._mk(s.us - t)
+        d = dt_parts(o)
         if d is not NotImplemented:
-            return make_timedelta(s.us - d)
+            a, b = _pair((s.us, s.off), d, "subtract")
+            return make_timedelta(a - b)
         return NotImplemented
 
     def __rsub__(s, o):
-        d = dt_us(o)
-        return NotImplemented if d is NotImplemented else make_timedelta(d - s.us)
+        d = dt_parts(o)
+        if d is NotImplemented:
+            return NotImplemented
+        a, b = _pair(d, (s.us, s.off), "subtract")
+        return make_timedelta(a - b)
 
     def _cmp(s, o, fn):
-        o = dt_us(o)
-        return NotImplemented if o is NotImplemented else fn(s.us, o)
+        d = dt_parts(o)
+        if d is NotImplemented:
+            return NotImplemented
+        a, b = _pair((s.us, s.off), d, "compare")
+        return fn(a, b)
 
     def __lt__(s, o): return s._cmp(o, lambda a, b: a < b)
     def __le__(s, o): return s._cmp(o, lambda a, b: a <= b)
@@ -229,29 +324,47 @@ class SDatetime:
     def __ge__(s, o): return s._cmp(o, lambda a, b: a >= b)
 
     def __eq__(s, o):
-        r = s._cmp(o, lambda a, b: a == b)
-        return False if r is NotImplemented else r
+        d = dt_parts(o)
+        if d is NotImplemented or (d[1] is None) != (s.off is None):
+            return False
+        return s._cmp(o, lambda a, b: a == b)
 
     def __ne__(s, o):
-        r = s._cmp(o, lambda a, b: a != b)
-        return True if r is NotImplemented else r
+        d = dt_parts(o)
+        if d is NotImplemented or (d[1] is None) != (s.off is None):
+            return True
+        return s._cmp(o, lambda a, b: a != b)
 
     def __hash__(s): return 6
     def __deepcopy__(s, memo): return s
     def __copy__(s): return s
-    def __repr__(s): return f"SDatetime({s.us!r} us)"
+    def __repr__(s): return f"SDatetime({s.us!r} us, off={s.off!r})"
     def __str__(s): return Ctx.cur.sentinel_str(s)
 
     def timestamp(s):
-        return s.us / 1000000
+        # naive: local wall clock (mktime); aware: its own offset
+        return (s.us - (zone() if s.off is None else s.off)) / 1000000
 
     def isoformat(s, *a, **k):
         return Ctx.cur.sentinel_str(s)
 
     def replace(s, **kw):
-        if kw.get("tzinfo", None) is None and set(kw) <= {"tzinfo"}:
-            return s
+        if set(kw) <= {"tzinfo"}:
+            tz = kw.get("tzinfo", None)
+            if tz is None:
+                return SDatetime(s.us) if s.off is not None else s
+            if isinstance(tz, _dt.timezone):
+                return SDatetime(s.us, tz.utcoffset(None) // US)
         raise Abort("unsupported", "SDatetime.replace")
+
+    def astimezone(s, tz=None):
+        utc = s.us - (zone() if s.off is None else s.off)
+        if tz is None:
+            return make_aware(utc + zone(), zone())
+        if isinstance(tz, _dt.timezone):
+            off = tz.utcoffset(None) // US
+            return make_aware(utc + off, off)
+        raise Abort("unsupported", "SDatetime.astimezone to a non-fixed zone")
 
 
 # --------------------------------------------------------------------------------------
@@ -315,15 +428,24 @@ class VDatetime(metaclass=_DTMeta):
             return real_datetime.now(tz)
         v = clock.now()
         if tz is not None:
-            # the virtual clock is naive UTC (TZ=UTC): an aware "now" is that instant seen from the zone asked for
-            if not isinstance(v, real_datetime):
-                raise TypeError("a symbolic clock read in a time zone is not modelled (aware datetimes are concrete in the harnesses)")
-            return v.replace(tzinfo=_dt.timezone.utc).astimezone(tz)
+            # the virtual clock is the local wall clock (UTC unless a harness set a zone): an aware "now" is that
+            # instant seen from the zone asked for
+            if not isinstance(tz, _dt.timezone):
+                if isinstance(v, real_datetime) and not _is_sym(zone()):
+                    return (v - real_timedelta(microseconds=int(zone()))).replace(tzinfo=_dt.timezone.utc).astimezone(tz)
+                raise Abort("unsupported", "a symbolic clock read in a non-fixed time zone")
+            off = tz.utcoffset(None) // US
+            return make_aware(dt_us(v) - zone() + off, off)
         return v
 
     @staticmethod
     def utcnow():
-        return VDatetime.now()
+        clock = current_clock()
+        if clock is None:
+            return real_datetime.utcnow()
+        v = clock.now()
+        z = zone()
+        return v if (not _is_sym(z) and z == 0) else make_datetime(dt_us(v) - z)
 
     @staticmethod
     def fromisoformat(s):
@@ -339,10 +461,16 @@ class VDatetime(metaclass=_DTMeta):
 
     @staticmethod
     def fromtimestamp(ts, tz=None):
-        if isinstance(ts, SNum):
-            return SDatetime(ts * 1000000)
-        if isinstance(ts, Q):
-            return make_datetime(ts.f * 1000000)
+        if tz is not None and not isinstance(tz, _dt.timezone):
+            if isinstance(ts, (SNum, Q)):
+                raise Abort("unsupported", "fromtimestamp of a symbolic instant in a non-fixed zone")
+            return real_datetime.fromtimestamp(ts, tz)
+        if isinstance(ts, (SNum, Q)) or _is_sym(zone()):
+            us = (ts.f if isinstance(ts, Q) else exact(ts) if not isinstance(ts, SNum) else ts) * 1000000
+            if tz is None:
+                return make_datetime(us + zone())
+            off = tz.utcoffset(None) // US
+            return make_aware(us + off, off)
         return real_datetime.fromtimestamp(ts, tz)
 
     @staticmethod
@@ -396,11 +524,11 @@ class PinnedClock:
         return make_datetime(self.now_us())
 
     def time(self):
-        us = self.now_us()
+        us = self.now_us() - zone()
         return us / 1000000 if isinstance(us, SNum) else Q(Fraction(us, 1000000))
 
     def time_ns(self):
-        return self.now_us() * 1000
+        return (self.now_us() - zone()) * 1000
 
 
 class FreeClock:
@@ -424,11 +552,11 @@ class FreeClock:
         return make_datetime(self.now_us())
 
     def time(self):
-        us = self.now_us()
+        us = self.now_us() - zone()
         return us / 1000000 if isinstance(us, SNum) else Q(Fraction(us, 1000000))
 
     def time_ns(self):
-        return self.now_us() * 1000
+        return (self.now_us() - zone()) * 1000
 
 
 class LoopClock:
@@ -447,10 +575,13 @@ class LoopClock:
 
     def time(self):
         t = self.loop.time()
-        return t + Fraction(self.epoch_us, 1000000)
+        z = zone()
+        if _is_sym(z):
+            return t + Fraction(self.epoch_us, 1000000) - z / 1000000
+        return t + Fraction(self.epoch_us - z, 1000000)
 
     def time_ns(self):
-        us = self.now_us()
+        us = self.now_us() - zone()
         if isinstance(us, Q):
             return int(us.f * 1000)
         return us * 1000
